@@ -1,6 +1,8 @@
 /* API-level differential driver for user-defined pools (C14).
  *
- * Pools: 0,1 built-in FIFO; 2,3 ABT_pool_user_def; 4 legacy ABT_pool_def.  None is attached
+ * Pools: 0,1 built-in FIFO; 2,3 ABT_pool_user_def; 4 legacy ABT_pool_def; 5,6 ABT_pool_user_def
+ * "twins" that both use the SAME unit handle for a given work unit (a per-work-unit arena slot,
+ * like pools that use the ABT_thread handle as unit).  None is attached
  * to a scheduler: the primary ULT plays scheduler (pop / ABT_self_schedule), so the order in
  * which work units are handed out is whatever the op sequence says (user pools pop the
  * element chosen by the op line, i.e. by the check's PRNG).
@@ -19,9 +21,10 @@
 #include <string.h>
 #include <unistd.h>
 
-#define NPOOLS 5
+#define NPOOLS 7
 #define MAXT 8192
 #define NSLOTS 48
+#define NTWIN 512 /* twin slot NSLOTS+k belongs to work unit t<k> */
 #define MAXQ 256
 
 enum { S_FREE = 0, S_POOL, S_HAND, S_TERM };
@@ -37,8 +40,9 @@ typedef struct {
     int slot;
 } uunit;
 static char *arena;
-static size_t slot_off[NSLOTS];
+static size_t slot_off[NSLOTS + NTWIN];
 static int slot_used[NSLOTS];
+static int twin_live[2][NTWIN];
 
 static size_t my_hash(size_t v) { return ((v >> 3) + (v >> 11) + (v >> 19)) & 255; }
 
@@ -51,7 +55,7 @@ static void arena_init(void)
     }
     arena = (char *)p;
     int n = 0;
-    for (size_t off = 64; n < NSLOTS; off += 8) {
+    for (size_t off = 64; n < NSLOTS + NTWIN; off += 8) {
         size_t hv = my_hash(off);
         if (hv == 1 || hv == 2) {
             if (n > 0 && off < slot_off[n - 1] + sizeof(uunit))
@@ -63,7 +67,7 @@ static void arena_init(void)
 static int slot_of(ABT_unit u)
 {
     size_t off = (size_t)((char *)u - arena);
-    for (int i = 0; i < NSLOTS; i++)
+    for (int i = 0; i < NSLOTS + NTWIN; i++)
         if (slot_off[i] == off)
             return i;
     return -1;
@@ -102,6 +106,21 @@ static ABT_unit up_create(int pi, ABT_thread thread)
         OUT(" | create p%d t%d null", pi, tindex(thread));
         return ABT_UNIT_NULL;
     }
+    if (pi >= 5) {
+        int k = tindex(thread);
+        if (k < 0 || k >= NTWIN) {
+            OUT(" | create p%d t%d null", pi, k);
+            return ABT_UNIT_NULL;
+        }
+        uunit *u = (uunit *)(arena + slot_off[NSLOTS + k]);
+        u->thread = thread;
+        u->slot = NSLOTS + k;
+        OUT(" | create p%d t%d u%d", pi, k, NSLOTS + k);
+        if (twin_live[pi - 5][k])
+            OUT("!already-live");
+        twin_live[pi - 5][k] = 1;
+        return (ABT_unit)u;
+    }
     for (int i = 0; i < NSLOTS; i++)
         if (!slot_used[i]) {
             slot_used[i] = 1;
@@ -118,7 +137,11 @@ static void up_free(int pi, ABT_unit unit)
 {
     int s = slot_of(unit);
     OUT(" | free p%d u%d", pi, s);
-    if (s < 0 || !slot_used[s])
+    if (s >= NSLOTS && pi >= 5) {
+        if (!twin_live[pi - 5][s - NSLOTS])
+            OUT("!not-live");
+        twin_live[pi - 5][s - NSLOTS] = 0;
+    } else if (s < 0 || s >= NSLOTS || !slot_used[s])
         OUT("!not-live");
     else
         slot_used[s] = 0;
@@ -127,7 +150,7 @@ static void up_push(int pi, ABT_unit unit)
 {
     int s = slot_of(unit);
     OUT(" | push p%d u%d", pi, s);
-    if (s < 0 || !slot_used[s])
+    if (s >= NSLOTS && pi >= 5 ? !twin_live[pi - 5][s - NSLOTS] : (s < 0 || s >= NSLOTS || !slot_used[s]))
         OUT("!not-live");
     q[pi][qn[pi]++] = unit;
 }
@@ -249,7 +272,9 @@ int main(void)
         return 3;
     ABT_pool_create_basic(ABT_POOL_FIFO, ABT_POOL_ACCESS_MPMC, ABT_FALSE, &pools[0]);
     ABT_pool_create_basic(ABT_POOL_FIFO, ABT_POOL_ACCESS_MPMC, ABT_FALSE, &pools[1]);
-    for (int i = 2; i <= 3; i++) {
+    for (int i = 2; i <= 6; i++) {
+        if (i == 4)
+            continue;
         ABT_pool_user_def def;
         ABT_pool_user_def_create(nd_create_unit, nd_free_unit, nd_is_empty, nd_pop, nd_push, &def);
         ABT_pool_create(def, ABT_POOL_CONFIG_NULL, &pools[i]);
